@@ -1204,5 +1204,103 @@ def _first_conjunct_is_nonempty(test) -> bool:
     return isinstance(test, ast.BoolOp) and isinstance(test.op, ast.And) and norm(test.values[0]) == "operator_stack"
 
 
+
+
+# ============================================================================ R10 token-stream helpers
+def r10(ctx):
+    """The three token-stream rewriters that R4's call sites rely on, by the boolean functions of their conditions."""
+    from ..util import truth_table
+    P = ctx.project
+    U = "formulaic.parser.utils"
+    # replace_tokens: a token is passed through unchanged iff (kind given and token.kind is not kind) or token.token != target
+    f = P.func(U + ".replace_tokens")
+    loops = [n for n in walk_no_nested(f.node) if isinstance(n, ast.For)]
+    ifs = [n for n in (loops[0].body if loops else []) if isinstance(n, ast.If)]
+    ctx.look()
+    if not ifs:
+        raise AnalysisError("C01.R10: replace_tokens loop/branch not found")
+    br = ifs[0]
+
+    def atom_r(e):
+        t = norm(e)
+        return {"kind": (0, True), "kind is not None": (0, True), "token.kind is not kind": (1, True), "token.kind is kind": (1, False),
+                "token.kind != kind": (1, True), "token.kind == kind": (1, False),
+                "token.token != token_to_replace": (2, True), "token.token == token_to_replace": (2, False)}.get(t)
+    tt = truth_table(br.test, atom_r, 3)
+    import itertools
+    want_pass = tuple((k and nk) or ne for k, nk, ne in itertools.product([False, True], repeat=3))
+    passes_token = len(br.body) == 1 and norm(br.body[0]) == "yield token"
+    repl = norm(ast.Module(body=br.orelse, type_ignores=[]))
+    ok_rep = "yield replacement" in repl and "yield from replacement" in repl and "isinstance(replacement, Token)" in repl
+    if isinstance(tt, tuple) and not passes_token:
+        # branch written the other way round
+        want_pass = tuple(not x for x in want_pass)
+        passes_token = len(br.orelse) == 1 and norm(br.orelse[0]) == "yield token"
+    ctx.check(isinstance(tt, tuple) and tt == want_pass and passes_token and ok_rep, "C01.R10",
+              "replace_tokens replaces exactly the tokens with the given text (and kind, when a kind is given)", f.module.line(br), ctx.construct(f, text="replace condition"),
+              f"condition `{norm(br.test)}` {'has unmodelled atom ' + tt if isinstance(tt, str) else 'is not (kind ∧ kind-differs) ∨ text-differs'}; "
+              f"pass-through={passes_token}, replacement branch ok={ok_rep}")
+    # insert_tokens_after: where tokens are inserted and when the join operator is added
+    g = P.func(U + ".insert_tokens_after")
+    t = norm(g.node)
+    ctx.look(3)
+    ok = "split_tokens = list(token.split(pattern, after=True))" in t and "m = pattern.search(split_token.token)" in t and \
+        "if m and m.span()[1] == len(split_token.token):" in t and "yield from tokens_to_add" in t
+    ctx.check(ok, "C01.R10", "insert_tokens_after inserts directly after each (sub-)token that ends with the pattern", g.where, ctx.construct(g, text="insert position"),
+              "tokens must be split after the pattern and the insertion made after a piece ending in the match")
+    joins = [n for n in ast.walk(g.node) if isinstance(n, ast.If) and "next_token is not None" in norm(n.test)]
+    ok = False
+    if len(joins) == 1:
+        def atom_j(e):
+            return {"next_token is not None": (0, True), "next_token.kind is not Token.Kind.OPERATOR": (1, True), "no_join_for_operators is False": (2, True),
+                    "isinstance(no_join_for_operators, set)": (3, True), "next_token.token not in no_join_for_operators": (4, True)}.get(norm(e))
+        tj = truth_table(joins[0].test, atom_j, 5)
+        want = tuple(n_ and (k or f_ or (i and m_)) for n_, k, f_, i, m_ in itertools.product([False, True], repeat=5))
+        ok = tj == want and norm(joins[0].body[0]) == "yield Token(join_operator, kind=Token.Kind.OPERATOR)"
+    ctx.check(ok, "C01.R10", "the join operator is added iff a next token exists and it is not an excluded operator", g.where, ctx.construct(g, text="join condition"),
+              "expected next ∧ (next is not an operator ∨ no_join is False ∨ (no_join is a set ∧ next ∉ no_join))")
+    nx = "next_token = split_tokens[j + 1]" in t and "next_token = tokens[i + 1]" in t and "if j < len(split_tokens) - 1:" in t and "elif i < len(tokens) - 1:" in t
+    ctx.check(nx, "C01.R10", "the next token is the following piece of the same token, else the following token", g.where, ctx.construct(g, text="next token"),
+              "next-token lookup changed")
+    skip = [n for n in ast.walk(g.node) if isinstance(n, ast.If) and "pattern.search(token.token)" in norm(n.test)]
+    ok = False
+    if skip:
+        def atom_s(e):
+            return {"kind is not None": (0, True), "token.kind is not kind": (1, True), "not pattern.search(token.token)": (2, True),
+                    "pattern.search(token.token)": (2, False)}.get(norm(e))
+        ts = truth_table(skip[0].test, atom_s, 3)
+        want = tuple((k and nk) or nm for k, nk, nm in itertools.product([False, True], repeat=3))
+        ok = ts == want and norm(skip[0].body[0]) == "yield token" and isinstance(skip[0].body[-1], ast.Continue)
+    ctx.check(ok, "C01.R10", "tokens of another kind or without a match pass through unchanged", g.where, ctx.construct(g, text="skip condition"),
+              "expected (kind given ∧ kind differs) ∨ no match → yield token; continue")
+    # merge_operator_tokens
+    h = P.func(U + ".merge_operator_tokens")
+    t = norm(h.node)
+    lp = [n for n in walk_no_nested(h.node) if isinstance(n, ast.For)]
+    first = lp[0].body[0] if lp and isinstance(lp[0].body[0], ast.If) else None
+    ok = False
+    if first is not None:
+        def atom_m(e):
+            return {"token.kind is not Token.Kind.OPERATOR": (0, True), "symbols": (1, True), "token.token[0] not in symbols": (2, True)}.get(norm(e))
+        tm = truth_table(first.test, atom_m, 3)
+        want = tuple(no or (s_ and ns) for no, s_, ns in itertools.product([False, True], repeat=3))
+        ok = tm == want
+    ctx.look(2)
+    ctx.check(ok, "C01.R10", "merge_operator_tokens leaves non-operators (and operators not starting with a listed symbol) alone", h.where,
+              ctx.construct(h, text="merge condition"), "expected not-operator ∨ (symbols ∧ first char ∉ symbols)")
+    ok = "pooled_token = token.copy_with_attrs(token=pooled_token.token + token.token)" in t and "if pooled_token: yield pooled_token" in t.replace("\n", " ") \
+        and t.rstrip().endswith("if pooled_token: yield pooled_token") is False or "pooled_token = token.copy_with_attrs(token=pooled_token.token + token.token)" in t
+    tail = h.node.body[-1]
+    ok2 = isinstance(tail, ast.If) and norm(tail.test) == "pooled_token" and norm(tail.body[0]) == "yield pooled_token"
+    ctx.check("pooled_token = token.copy_with_attrs(token=pooled_token.token + token.token)" in t and ok2, "C01.R10",
+              "adjacent sign tokens are concatenated in order and the last pooled token is flushed", h.where, ctx.construct(h, text="merge order"),
+              "expected pooled.token + token.token and a final `if pooled_token: yield pooled_token`")
+    # Token.split keeps the text in order
+    sp = P.method("formulaic.parser.types.token.Token", "split")
+    t = norm(sp.node)
+    ok = "token=self.token[last_index:next_index]" in t and "if last_index < len(self.token):" in t and "separator.span()[1]" in t and "separator.span()[0]" in t
+    ctx.check(ok, "C01.R10", "Token.split cuts the token text at the match boundaries without losing characters", sp.where, ctx.construct(sp, text="split"),
+              "Token.split changed shape")
+
 RULES = [("C01.R1", r1), ("C01.R2", r2), ("C01.R3", r3), ("C01.R4", r4), ("C01.R5", r5), ("C01.R6", r6), ("C01.R7", r7),
-         ("C01.R8", r8), ("C01.R9", r9)]
+         ("C01.R8", r8), ("C01.R9", r9), ("C01.R10", r10)]
